@@ -202,6 +202,7 @@ func (env *e2eEnv) PlayE2E(name string, c *Case, perStep time.Duration) E2EResul
 	defer server.Close()
 	// the client preface, in two pieces
 	pre := hook.ConnectionPreface()
+	_ = clientEnd.SetWriteDeadline(time.Now().Add(5 * time.Second))
 	go func() {
 		_, _ = clientEnd.Write(pre[:10])
 		_, _ = clientEnd.Write(pre[10:])
@@ -215,6 +216,8 @@ func (env *e2eEnv) PlayE2E(name string, c *Case, perStep time.Duration) E2EResul
 	var toC, toS sink
 	go toC.pump(clientEnd)
 	go toS.pump(server)
+	const overallBudget = 25 * time.Second
+	overall := time.Now().Add(overallBudget)
 	var wantC, wantS []byte
 	syncC, syncS := 0, 0 // synchronisation PINGs each endpoint must have received
 	for i, st := range c.Steps {
@@ -222,8 +225,16 @@ func (env *e2eEnv) PlayE2E(name string, c *Case, perStep time.Duration) E2EResul
 		if st.From == "C" {
 			w = clientEnd
 		}
+		// never wait for ever: a relay direction that has stopped reading blocks the writer (net.Pipe is
+		// synchronous, TLS buffers are finite)
+		_ = clientEnd.SetWriteDeadline(time.Now().Add(perStep))
+		_ = server.SetWriteDeadline(time.Now().Add(perStep))
+		if time.Now().After(overall) {
+			return fail(i, "history not finished within %v (stalled)", overallBudget)
+		}
 		if _, err := w.Write(st.Raw); err != nil {
-			return fail(i, "writing frame: %v", err)
+			return fail(i, "the relay does not take frame %d (%s %s id=%d, %d octets) within %v: %v (a relay direction has stopped reading: everything behind it is stranded)",
+				i, st.From, st.In.T, st.In.ID, len(st.Raw), perStep, err)
 		}
 		// a PING from the same endpoint right behind the frame: the relay forwards it when it has finished
 		// processing the frame (frames that cause no output would otherwise leave the two relay goroutines
